@@ -29,6 +29,15 @@ CONFIGS = {
     "p20": dict(cxx="clang++", std="gnu++20", opt="-O1",
                 flags="-fsanitize=address,undefined -fno-sanitize-recover=undefined -fno-sanitize=vptr,function "
                       "-UNDEBUG -DUNIFEX_NO_ASYNC_STACKS=1"),
+    # C20 configuration matrix (the reference is p17 / p20)
+    "r17": dict(cxx="g++", std="gnu++17", opt="-O1",      # release: NDEBUG, libunifex assertions compiled out, no async stacks (config.hpp default under NDEBUG)
+                flags="-fsanitize=address,undefined -fno-sanitize-recover=undefined -fno-sanitize=vptr -DNDEBUG -DVK_KEEP_ASSERT=1"),
+    "s17": dict(cxx="g++", std="gnu++17", opt="-O1",      # debug + async stack tracing on
+                flags="-fsanitize=address,undefined -fno-sanitize-recover=undefined -fno-sanitize=vptr -UNDEBUG -DUNIFEX_NO_ASYNC_STACKS=0"),
+    "v17": dict(cxx="g++", std="gnu++17", opt="-O1",      # continuation visitation on
+                flags="-fsanitize=address,undefined -fno-sanitize-recover=undefined -fno-sanitize=vptr -UNDEBUG -DUNIFEX_NO_ASYNC_STACKS=1 -DUNIFEX_ENABLE_CONTINUATION_VISITATIONS=1"),
+    "s20": dict(cxx="g++", std="gnu++20", opt="-O1",      # C++20 (coroutines) + async stack tracing on; g++: clang-14 cannot compile the traced coroutine code with ASan at -O1
+                flags="-fsanitize=address,undefined -fno-sanitize-recover=undefined -fno-sanitize=vptr -UNDEBUG -DUNIFEX_NO_ASYNC_STACKS=0"),
     # schedule-controlled: everything compiled through the detsched shim
     "d17": dict(cxx="clang++", std="gnu++17", opt="-O1", shim=True,
                 flags="-fsanitize=address -UNDEBUG -DUNIFEX_NO_ASYNC_STACKS=1"),
@@ -281,7 +290,7 @@ def minimise(u, prop, data, want_sig, extra, log, budget=400):
     return bytes(cur)
 
 
-def run_shards(u, prop, tier, seed, log, extra=None, scale=1.0):
+def run_shards(u, prop, tier, seed, log, extra=None, scale=1.0, per_shard=None):
     secs, cases = u.quick if tier == "quick" else u.thorough
     secs = secs * scale
     nsh = u.shards or NCPU
@@ -292,7 +301,10 @@ def run_shards(u, prop, tier, seed, log, extra=None, scale=1.0):
     for i in range(nsh):
         d = os.path.join(base, "s%02d" % i)
         os.makedirs(d)
-        cmd = unit_cmd(u, prop, extra) + ["--out", d, "--seed", str(seed * 131 + i + 1), "--cases", str(per),
+        ex = dict(extra or {})
+        if per_shard:
+            ex.update(per_shard(i, d))
+        cmd = unit_cmd(u, prop, ex) + ["--out", d, "--seed", str(seed * 131 + i + 1), "--cases", str(per),
                                            "--secs", str(secs), "--max-size", str(u.max_size)]
         if u.pin:
             cmd += ["--cpu", str(i % NCPU)]
